@@ -135,6 +135,71 @@ namespace
       if (variable(p) != FALSE_var) dl_lits.push_back(p);
       return p;
     }
+    // a family of literals tightening the SAME bound / distance: assumed one after the other they update one bound at
+    // several decision levels (what C08's undo layers must handle)
+    std::vector<std::vector<lit>> families;
+    void lra_family()
+    {
+      if (lra_vars.empty()) return;
+      L e = lra_expr();
+      if (e.c.empty()) return;
+      e.k = 0;
+      bool upper = t.flip();
+      int c0 = t.range(-6, 10), k = t.range(2, 4);
+      std::vector<lit> fam;
+      for (int i = 0; i < k; ++i)
+      {
+        L rhs;
+        rhs.k = upper ? c0 - 2 * i : c0 + 2 * i;
+        int rel = upper ? (t.chance(1, 4) ? LT : LEQ) : (t.chance(1, 4) ? GT : GEQ);
+        lin la = toLin(e), lb = toLin(rhs);
+        lit p = rel == LT ? n.lra.new_lt(la, lb) : rel == LEQ ? n.lra.new_leq(la, lb) : rel == GEQ ? n.lra.new_geq(la, lb) : n.lra.new_gt(la, lb);
+        n.ensure_internal_numeric();
+        n.log << "  lra " << qx::str(e) << " " << rels(rel) << " " << qx::str(rhs) << " -> " << ls(p) << "\n";
+        Meaning m;
+        m.kind = Meaning::LRA_REL;
+        m.rel = rel;
+        m.left = e;
+        m.right = rhs;
+        n.claim(p, m);
+        if (variable(p) != FALSE_var) { lra_lits.push_back(p); fam.push_back(p); }
+      }
+      if (fam.size() >= 2) families.push_back(fam);
+    }
+    void dl_family(bool real)
+    {
+      auto &pts = real ? rdl_pts : idl_pts;
+      if (pts.size() < 2) return;
+      size_t from = pts[t.pick(pts.size())], to = pts[t.pick(pts.size())];
+      if (from == to) return;
+      int d0 = t.range(-4, 10), k = t.range(2, 4);
+      std::vector<lit> fam;
+      for (int i = 0; i < k; ++i)
+      {
+        Meaning m;
+        m.from = from;
+        m.to = to;
+        lit p;
+        long d = d0 - 2 * i;
+        if (real)
+        {
+          int ke = t.chance(1, 4) ? -1 : 0;
+          m.kind = Meaning::RDL_DIST;
+          m.dist = E(Q(d), Q(ke));
+          p = n.rdl.new_distance(from, to, inf_rational(rational(d), rational(ke)));
+        }
+        else
+        {
+          m.kind = Meaning::IDL_DIST;
+          m.dist = E(Q(d));
+          p = n.idl.new_distance(from, to, d);
+        }
+        n.log << "  " << (real ? "rdl r" : "idl i") << to << " - " << (real ? "r" : "i") << from << " <= " << qx::str(m.dist) << " -> " << ls(p) << "\n";
+        n.claim(p, m);
+        if (variable(p) != FALSE_var) { dl_lits.push_back(p); fam.push_back(p); }
+      }
+      if (fam.size() >= 2) families.push_back(fam);
+    }
     void ov_var()
     {
       int k = t.range(1, 4);
@@ -198,6 +263,7 @@ namespace
           card = card && (set.empty() ? n.z.bool_val(false) : z3::mk_or(any));
         }
         n.add_phi(z3::implies(n.zl(p), card));
+        n.strong.push_back(z3::implies(card, n.zl(p)));
         if (variable(p) != FALSE_var) amo_lits.push_back(p);
       }
       return p;
@@ -211,15 +277,16 @@ namespace
       for (auto &p : lra_lits) if (pool.size() < 9) pool.push_back(lit(variable(p)));
       for (auto &p : dl_lits) if (pool.size() < 10) pool.push_back(lit(variable(p)));
       if (pool.size() < 3) return;
-      if (pool.size() > 8) pool.resize(8);
-      int m = (int)(pool.size() * (3 + t.pick(3))) ; // 3..5 clauses per variable
+      if (pool.size() > 14) pool.resize(14);
+      int m = (int)(pool.size() * (7 + t.pick(3)) / 2); // 3.5 .. 4.5 clauses per variable
       for (int i = 0; i < m && !n.dead; ++i)
       {
         std::vector<lit> c;
         for (int j = 0; j < 3; ++j)
         {
-          lit p = pool[t.pick(pool.size())];
-          c.push_back(t.flip() ? p : !p);
+          unsigned k = t.pick(2 * pool.size());
+          lit p = pool[k / 2];
+          c.push_back(k & 1 ? p : !p);
         }
         n.do_new_clause(c);
       }
@@ -423,6 +490,8 @@ namespace
       if (o.sub == "idl") use_rdl = false;
       if (o.sub == "rdl") use_idl = false;
     }
+    bool sat_only = o.sub == "sat";
+    if (sat_only) use_lra = use_idl = use_rdl = use_ov = false;
     if (o.has("no_idl")) use_idl = false;
     if (o.has("no_rdl")) use_rdl = false;
     if (o.has("no_reified")) use_reified = false;
@@ -434,6 +503,50 @@ namespace
     bool strict_active = false, pivoted = false;
     size_t max_depth = 0;
 
+    // which observable bounds changed at which decision level (to measure "a pop undid >= 2 updates of one bound made at >= 2 levels")
+    std::map<std::string, std::vector<size_t>> changed_at;
+    std::map<std::string, std::string> last_obs;
+    bool multi_undo = false;
+    auto observe = [&]() {
+      if (n.dead) return;
+      std::map<std::string, std::string> obs;
+      if (use_lra)
+        for (size_t i = 0; i < n.lra.verif_n_vars(); ++i)
+        {
+          obs["xl" + std::to_string(i)] = qx::str(toE(n.lra.lb(i)));
+          obs["xu" + std::to_string(i)] = qx::str(toE(n.lra.ub(i)));
+        }
+      if (use_idl)
+        for (size_t i = 1; i < n.idl.size(); ++i)
+        {
+          auto b = n.idl.bounds(i);
+          obs["il" + std::to_string(i)] = std::to_string(b.first);
+          obs["iu" + std::to_string(i)] = std::to_string(b.second);
+        }
+      if (use_rdl)
+        for (size_t i = 1; i < n.rdl.size(); ++i)
+        {
+          auto b = n.rdl.bounds(i);
+          obs["rl" + std::to_string(i)] = qx::str(toE(b.first));
+          obs["ru" + std::to_string(i)] = qx::str(toE(b.second));
+        }
+      size_t lvl = n.sat.decision_level();
+      for (auto &kv : changed_at)
+      {
+        size_t cnt = 0;
+        std::set<size_t> lv;
+        for (auto l : kv.second)
+          if (l > lvl) { ++cnt; lv.insert(l); }
+        if (cnt >= 2 && lv.size() >= 2) multi_undo = true;
+        kv.second.erase(std::remove_if(kv.second.begin(), kv.second.end(), [lvl](size_t l) { return l > lvl; }), kv.second.end());
+      }
+      for (auto &kv : obs)
+      {
+        auto it = last_obs.find(kv.first);
+        if (it != last_obs.end() && it->second != kv.second && lvl > 0) changed_at[kv.first].push_back(lvl);
+      }
+      last_obs = obs;
+    };
     auto fail_all = [&](std::vector<std::string> &own, std::vector<std::string> &other) {
       for (auto &f : own) n.violation(f);
       for (auto &f : other) n.foreign(f);
@@ -493,8 +606,8 @@ namespace
     {
       while (!n.sat.root_level()) n.do_pop();
       n.log << "round " << rd << ": creation at root\n";
-      int nb = t.range(rd == 0 ? 2 : 0, 5);
-      for (int i = 0; i < nb && n.user_bools.size() < 10; ++i) n.new_bool();
+      int nb = sat_only ? t.range(rd == 0 ? 8 : 0, 14) : t.range(rd == 0 ? 2 : 0, 5);
+      for (int i = 0; i < nb && n.user_bools.size() < (sat_only ? 14u : 10u); ++i) n.new_bool();
       if (use_lra)
       {
         int k = t.range(rd == 0 ? 1 : 0, 3);
@@ -508,14 +621,14 @@ namespace
       if (use_idl)
       {
         int k = t.range(rd == 0 ? 2 : 0, 4);
-        if (P == "C10" && t.chance(1, 6)) k = 17; // cross the 16x16 matrix
+        if (P == "C10" && t.rare(1, 8)) k = 17; // cross the 16x16 matrix
         for (int i = 0; i < k && g.idl_pts.size() < 24; ++i) g.idl_pts.push_back(n.new_idl());
         if (g.idl_pts.size() > 16) resized = true;
       }
       if (use_rdl)
       {
         int k = t.range(rd == 0 ? 2 : 0, 4);
-        if (P == "C10" && t.chance(1, 6)) k = 17;
+        if (P == "C10" && t.rare(1, 8)) k = 17;
         for (int i = 0; i < k && g.rdl_pts.size() < 24; ++i) g.rdl_pts.push_back(n.new_rdl());
         if (g.rdl_pts.size() > 16) resized = true;
       }
@@ -528,6 +641,14 @@ namespace
       for (int i = 0; i < nc && !n.dead; ++i)
       {
         unsigned w = t.pick(16);
+        if (P == "C08" && t.chance(1, 3))
+        {
+          unsigned f = t.pick(3);
+          if (f == 0 && use_lra) g.lra_family();
+          else if (f == 1 && use_idl) g.dl_family(false);
+          else if (use_rdl) g.dl_family(true);
+          continue;
+        }
         if (w < 3 && use_lra) g.lra_rel();
         else if (w < 5 && use_idl) g.dl_dist(false);
         else if (w < 7 && use_rdl) g.dl_dist(true);
@@ -535,9 +656,15 @@ namespace
         else if (w < 9 && use_reified) g.reified();
         else if (w < 10 && (use_idl || use_rdl) && P == "C10") g.dl_dist(use_rdl && (!use_idl || t.flip()));
         else if (w < 10 && use_lra && P == "C09") g.lra_rel();
+        else if (w < 12 && (P == "C10" || P == "C09") && (g.dl_lits.size() + g.lra_lits.size()) >= 2)
+        { // implications between theory literals: the SAT side forces a literal the theory may refute in the same round
+          std::vector<lit> &pl = P == "C10" ? g.dl_lits : g.lra_lits;
+          lit a = pl[t.pick(pl.size())], b = pl[t.pick(pl.size())];
+          n.do_new_clause({t.flip() ? a : !a, t.flip() ? b : !b});
+        }
         else g.clause();
       }
-      if (!n.dead && (P == "C07" || P == "C08" || P == "C18") && t.chance(rd == 0 ? 3 : 1, 4)) g.threshold_block();
+      if (!n.dead && (P == "C07" || P == "C18") && (t.chance(rd == 0 ? 3 : 1, 4) || (sat_only && rd == 0))) g.threshold_block();
       if (use_lra) record_creation_bounds(n, lref);
       if (t.chance(1, 5)) n.do_simplify();
       n.settle();
@@ -545,18 +672,28 @@ namespace
       if (n.dead || r.violation) break;
 
       n.log << "round " << rd << ": search\n";
-      int ns = t.range(2, 24);
+      int ns = sat_only ? t.range(4, 48) : t.range(2, 24);
       bool last_was_next = false, last_backjumped = false;
       for (int i = 0; i < ns && !n.dead && !r.violation; ++i)
       {
         unsigned w = t.pick(16);
+        if (P == "C08" && w >= 11 && w < 14 && t.flip()) w = 0; // C08: longer assumption chains
         size_t lvl_before = n.sat.decision_level();
         if (w < 9)
         {
           // assumption: biased to theory literals (they tighten the same bounds/distances at several levels)
           lit p;
           unsigned s = t.pick(4);
-          if (s == 0 && !g.lra_lits.empty()) { p = g.lra_lits[t.pick(g.lra_lits.size())]; if (t.flip()) p = !p; }
+          if (!g.families.empty() && P == "C08" && t.chance(1, 2))
+          { // next not-yet-assigned member of a family, loosest first
+            auto &fam = g.families[t.pick(g.families.size())];
+            p = fam[0];
+            for (auto &q : fam)
+              if (n.sat.value(q) == Undefined) { p = q; break; }
+          }
+          else if (P == "C10" && s != 3 && !g.dl_lits.empty()) { p = g.dl_lits[t.pick(g.dl_lits.size())]; if (t.chance(1, 3)) p = !p; }
+          else if (P == "C09" && s != 3 && !g.lra_lits.empty()) { p = g.lra_lits[t.pick(g.lra_lits.size())]; if (t.chance(1, 3)) p = !p; }
+          else if (s == 0 && !g.lra_lits.empty()) { p = g.lra_lits[t.pick(g.lra_lits.size())]; if (t.flip()) p = !p; }
           else if (s == 1 && !g.dl_lits.empty()) { p = g.dl_lits[t.pick(g.dl_lits.size())]; if (t.chance(1, 3)) p = !p; }
           else p = g.any_lit(false);
           // prefer unassigned literals: deep chains instead of repeated no-ops
@@ -575,6 +712,8 @@ namespace
             if (last_backjumped) pop_after_backjump = true;
           }
           n.do_pop();
+          if (P == "C08")
+            for (int j = t.range(0, 3); j > 0; --j) n.do_pop();
           last_was_next = last_backjumped = false;
         }
         else if (w < 12) { n.do_next(); last_was_next = true; last_backjumped = false; }
@@ -593,6 +732,7 @@ namespace
           if (lvl_before >= 4 && n.sat.root_level()) deep_root = true;
         }
         max_depth = std::max(max_depth, n.sat.decision_level());
+        if (P == "C08") observe();
         run_oracles();
       }
     }
@@ -626,6 +766,7 @@ namespace
     if (n.n_theory_lemmas) r.classes.insert("theory lemma");
     if (n.n_theory_conflicts) r.classes.insert("theory conflict");
     if (n.n_next) r.classes.insert("next()");
+    if (multi_undo) r.classes.insert("pop undid >= 2 updates of one bound made at >= 2 levels");
     if (pop_after_next) r.classes.insert("pop after next");
     if (pop_after_backjump) r.classes.insert("pop after backjump");
     if (deep_root) r.classes.insert("root reached from depth >= 4");
@@ -639,7 +780,7 @@ namespace
     if (P == "C07" || P == "C18")
       r.nontrivial = n.n_learnt_ge2 > 0 || n.n_backjump2 > 0 || n.n_theory_lemmas > 0;
     else if (P == "C08")
-      r.nontrivial = n.n_pops >= 2 && max_depth >= 2 && (n.n_theory_lemmas + n.n_theory_conflicts + n.n_conflicts > 0 || max_depth >= 3);
+      r.nontrivial = multi_undo;
     else if (P == "C09")
       r.nontrivial = pivoted && (n.n_theory_conflicts > 0 || n.n_theory_lemmas > 0);
     else if (P == "C10")
